@@ -118,8 +118,8 @@ func refShowFrom(fs []fframe, rx *regexp.Regexp) outcome {
 }
 
 var fnNames = []string{"f0", "f1", "f2", "f3", "main", "alloc", "xf3", "f3x", "main.run", "domain"}
-var fileNames = []string{"file0.go", "file1.go", "dir/f2.cc", "/proc/self/cwd/pkg/f3.go", "/proc/self/cwd/./gen/f4.go"}
-var namePats = []string{"f0", "f1|f2", "file1", "binA", "^f3$", "zzz", "bin", "f", "main$", "\\.cc", "[0-1]$", "lib/", "^main$", "^main\\.run$", "\\Af0\\z", "(?i)F1|zz", "^f3", "cwd", "^/proc/self", "self/cwd/pkg"}
+var fileNames = []string{"file0.go", "file1.go", "dir/f2.cc", "/proc/self/cwd/pkg/f3.go", "/proc/self/cwd/./gen/f4.go", "", ""}
+var namePats = []string{"f0", "f1|f2", "file1", "binA", "^f3$", "zzz", "bin", "f", "main$", "\\.cc", "[0-1]$", "lib/", "^main$", "^main\\.run$", "\\Af0\\z", "(?i)F1|zz", "^f3", "cwd", "^/proc/self", "self/cwd/pkg", "^$", "^[^.]*$", "^(file0\\.go)?$"}
 
 func genProfile(r *rand.Rand) *profile.Profile {
 	m1 := &profile.Mapping{ID: 1, Start: 0x1000, Limit: 0x2000, File: "/bin/binA"}
@@ -575,13 +575,16 @@ func mkTagFilter(r *rand.Rand, ls labelSpec) tagFilter {
 	}
 	var u string
 	var f int64
+	upper := false // the unit written the way pprof prints it (kB, MB) or in capitals
 	switch fam {
 	case "b":
 		u = []string{"b", "kb", "mb"}[r.Intn(3)]
 		f = byteF[u]
+		upper = r.Intn(3) == 0
 	case "t":
 		u = []string{"ns", "us", "ms", "s"}[r.Intn(4)]
 		f = timeF[u]
+		upper = r.Intn(3) == 0
 	default:
 		u, f = "", 1
 	}
@@ -605,6 +608,9 @@ func mkTagFilter(r *rand.Rand, ls labelSpec) tagFilter {
 	}
 	form := r.Intn(4)
 	var src string
+	if upper {
+		u = map[string]string{"b": "B", "kb": []string{"kB", "KB"}[r.Intn(2)], "mb": "MB", "ns": "NS", "us": "US", "ms": "Ms", "s": "S"}[u]
+	}
 	switch form {
 	case 0:
 		src = fmt.Sprintf("%d%s:%d%s", lo, u, hi, u)
@@ -819,7 +825,7 @@ func init() {
 	harness.Register(&harness.Check{
 		ID:    "C06",
 		Level: "exploration",
-		Rule: "part names: profiles over small name/file/binary alphabets with shared and inlined locations, unsymbolized frames and empty stacks, function and location ids distinct but neither dense nor ordered (values just above the table size included); every sample carries a unique id label so outcomes are matched per sample; random focus/ignore/hide/show/show_from expressions (20 patterns: literals, alternation, anchors, classes, path fragments), alone and combined, through the API (FilterSamplesByName + ShowFrom) and through the driver (-proto with the options, relative_percentages on/off; and -traces at functions/files/lines/filefunctions granularity with and without noinlines, where the set of surviving samples is read from their id labels). part interactive: 'proto F.. -I.. > file' typed into a fresh interactive session (1-4 focus words and -ignore words in any order) must filter like focus=F1|F2 ignore=I1|I2, and an argument-free command after it must see every sample again; half of the sessions first run a report under a label filter (taghide / tagshow / tagfocus) that is switched off again. part partition: focus=R plus ignore=R must contain every sample exactly once and totals must add up (also on -top totals). part tags: string labels and numeric labels in bytes/kb, ms/us, unitless and key-inferred units against regexp lists (AND without key, OR with key) and ranges N, N:, :N, N:M with unit conversion, optionally keyed, plus tagshow/taghide, through the driver. " +
+		Rule: "part names: profiles over small name/file/binary alphabets with shared and inlined locations, unsymbolized frames and empty stacks, function and location ids distinct but neither dense nor ordered (values just above the table size included); every sample carries a unique id label so outcomes are matched per sample; random focus/ignore/hide/show/show_from expressions (23 patterns: literals, alternation, anchors, classes, path fragments), alone and combined, through the API (FilterSamplesByName + ShowFrom) and through the driver (-proto with the options, relative_percentages on/off; and -traces at functions/files/lines/filefunctions granularity with and without noinlines, where the set of surviving samples is read from their id labels). part interactive: 'proto F.. -I.. > file' typed into a fresh interactive session (1-4 focus words and -ignore words in any order) must filter like focus=F1|F2 ignore=I1|I2, and an argument-free command after it must see every sample again; half of the sessions first run a report under a label filter (taghide / tagshow / tagfocus) that is switched off again. part partition: focus=R plus ignore=R must contain every sample exactly once and totals must add up (also on -top totals). part tags: string labels and numeric labels in bytes/kb, ms/us, unitless and key-inferred units against regexp lists (AND without key, OR with key) and ranges N, N:, :N, N:M with unit conversion, optionally keyed, plus tagshow/taghide, through the driver. " +
 			"oracle: reference filter written from doc/README.md over the frames view; values, labels and frame order must be retained. non-trivial = at least one decided sample / a tag filter present; distinct = (filters, sample counts)",
 		Assumptions: []string{"undecided by the statement and accepted either way: empty-stack samples under hide/show, unsymbolized frames under show", "numeric label units are consistent per key within a profile", "a unitless range compares raw values of labels without a known unit"},
 		Parts: []harness.Part{
